@@ -111,6 +111,50 @@ def m_param_any(cfg, a: typing.Any):
     return a
 
 
+# classes defined in unusual places (used as storage types and annotations)
+def _make_local_class():
+    class LocalClass:  # __qualname__ '_make_local_class.<locals>.LocalClass'
+        pass
+
+    return LocalClass
+
+
+LocalClass = _make_local_class()
+
+
+class Outer:
+    class Inner:  # __qualname__ 'Outer.Inner'
+        pass
+
+
+Renamed = type("Renamed", (), {})
+Renamed.__qualname__ = "Some.Other<Name>"  # __qualname__ says something else than __name__
+UNUSUAL_CLASSES = {"local": LocalClass, "nested": Outer.Inner, "renamed": Renamed}
+
+
+def _unusual_methods():
+    out = {}
+    for kind, C in UNUSUAL_CLASSES.items():
+        def param(cfg, a: C, b=1, *, k: C = None):
+            return a
+
+        def ret(cfg, a) -> C:
+            return a
+
+        def generic_param(cfg, a: typing.Optional[C] = None, *, k: typing.List[C] = None):
+            return a
+
+        def generic_return(cfg, a) -> typing.Dict[str, C]:
+            return {}
+
+        for f in (param, ret, generic_param, generic_return):
+            f.__name__ = "m_%s_%s_class" % (f.__name__, kind)
+            out[f.__name__[2:]] = f
+    return out
+
+
+UNUSUAL_METHODS = _unusual_methods()  # kept apart from METHODS: only used in the dedicated scenario section
+
 METHODS = {f.__name__[2:]: f for f in [
     m_noargs, m_positional, m_defaults, m_varargs, m_pos_varargs, m_kwonly, m_pos_kwonly, m_varargs_kwonly, m_varkw,
     m_everything, m_annotated, m_annotated_all_kinds, m_mixed_annotations, m_string_annotations,
@@ -120,7 +164,7 @@ TYPING_PARAM_METHODS = ("param_optional", "param_list", "kwonly_typing")
 
 
 def _method_class(name):
-    f = METHODS[name]
+    f = METHODS[name] if name in METHODS else UNUSUAL_METHODS[name]
     ann = dict(f.__annotations__)
     parts = []
     if name in TYPING_PARAM_METHODS:
@@ -181,15 +225,50 @@ def _nested2(cc):
 CTYPE_KINDS = ("ConfigType",)
 
 
+def _unusual_field_table():
+    """Field subclasses whose storage_type is a class defined in an unusual place; typed containers of them"""
+    import cincoconfig as cc
+    out = {}
+    for kind, C in UNUSUAL_CLASSES.items():
+        def plain(C=C, kind=kind):
+            return type("%sStorageField" % kind.capitalize(), (cc.Field,), {"storage_type": C})()
+
+        out["Field(storage=%s class)" % kind] = plain
+        out["ListField(Field(storage=%s class))" % kind] = lambda plain=plain: cc.ListField(plain())
+        out["DictField(StringField,Field(storage=%s class))" % kind] = \
+            lambda plain=plain: cc.DictField(cc.StringField(), plain())
+    return out
+
+
+def _unusual_feature(desc):
+    """-> witness class of a case that uses an unusual class, or None"""
+    kinds = [k for _key, k in desc["fields"] if "storage=" in k]
+    meths = [n for _key, n in desc.get("methods", []) if n in UNUSUAL_METHODS]
+    if any(k.startswith(("ListField(", "DictField(")) for k in kinds):
+        return "typing-generic-over-unusual-class:item-storage-type"
+    if any(n.startswith("generic_param") for n in meths):
+        return "typing-generic-over-unusual-class:param-annotation"
+    if any(n.startswith("generic_return") for n in meths):
+        return "typing-generic-over-unusual-class:return-annotation"
+    if kinds:
+        return "unusual-class:storage-type"
+    if any(n.startswith("param") for n in meths):
+        return "unusual-class:param-annotation"
+    if meths:
+        return "unusual-class:return-annotation"
+    return None
+
+
 def _build(desc):
     """desc: {"fields": [[key, field kind], ...], "methods": [[key, method name], ...]} -> Schema"""
     import cincoconfig as cc
     table = _field_table()
+    table.update(_unusual_field_table())
     s = cc.Schema()
     for key, kind in desc["fields"]:
         setattr(s, key, table[kind]())
     for key, name in desc.get("methods", []):
-        cc.instance_method(s, key)(METHODS[name])
+        cc.instance_method(s, key)(METHODS[name] if name in METHODS else UNUSUAL_METHODS[name])
     return s
 
 
@@ -258,8 +337,8 @@ def _check(desc, target, class_name):
     want_name = class_name or "MadeType"
     has_ctype = any(k in CTYPE_KINDS for _key, k in desc["fields"])
     mclasses = sorted({_method_class(n) for _k, n in desc.get("methods", [])})
-    input_class = "+".join((["config-type-field"] if has_ctype else []) +
-                           [c for c in mclasses if "typing-generic" in c][:1]) or "plain"
+    input_class = _unusual_feature(desc) or "+".join((["config-type-field"] if has_ctype else []) +
+                                                     [c for c in mclasses if "typing-generic" in c][:1]) or "plain"
 
     fp_before = _schema_fingerprint(schema)
     snap_before = snapshot(cfg) if cfg is not None else None
@@ -372,6 +451,22 @@ def _cases(tier):
          "methods": [["m_%s" % n, n] for n in plain_methods if "return" not in METHODS[n].__annotations__]})
     add({"fields": [["f%d" % i, k] for i, k in enumerate(no_ct)], "methods": [["m_%s" % n, n] for n in plain_methods]})
     add({"fields": [["f%d" % i, k] for i, k in enumerate(kinds)], "methods": [["m_%s" % n, n] for n in plain_methods]})
+    # classes defined in unusual places as storage type / parameter annotation / return annotation (alone, in context,
+    # every storage use with every annotation use), and typed containers / typing generics over them
+    ufields, umethods = list(_unusual_field_table()), list(UNUSUAL_METHODS)
+    for k in ufields:
+        add({"fields": [["f", k]]})
+        add({"fields": [["first", "IntField"], ["f", k], ["v", "VirtualField"]], "methods": [["go", "positional"]]},
+            tgts=("schema", "config"))
+    for name in umethods:
+        add({"fields": [], "methods": [["meth", name]]}, tgts=("schema", "configtype"))
+        add({"fields": [["a", "IntField"], ["v", "VirtualField"], ["sub", "Schema"]], "methods": [["meth", name]]},
+            tgts=("schema", "config"))
+    for k in ufields:
+        for name in umethods:
+            if "storage=" in k and not k.startswith("Field(") or name.startswith("generic"):
+                continue
+            add({"fields": [["f", k]], "methods": [["meth", name]]}, tgts=("schema", "configtype-instance"))
     # pairs of field kinds (order matters for the rendering)
     for a in kinds:
         for b in kinds:
@@ -420,9 +515,11 @@ def rac(tier="quick", seed=0):
              "the declared fields and inspect.signature(function) minus the config parameter; non-trivial iff the schema "
              "has a field or a method",
         bound="36 field kinds (every built-in field class, typed/nested lists and dicts, lists of schemas/config types, "
-              "virtual with/without setter, nested schemas, config type), 23 signature shapes (positional, defaults, *args, "
+              "virtual with/without setter, nested schemas, config type) + 9 kinds whose storage type is a class defined in a "
+              "function / nested in a class / with __qualname__ != __name__ (plain, list item, dict value), 23 + 12 signature "
+              "shapes (the 12: such classes as parameter / return annotation, plain and inside typing generics; the 23: positional, defaults, *args, "
               "keyword-only, **kwargs, annotated by class / string / typing generic / user class, with/without return "
-              "annotation); singles x 4 targets, each kind in context, all kinds at once, all ordered pairs of kinds, every "
+              "annotation; singles x 4 targets, each kind in context, all kinds at once, all ordered pairs of kinds, every "
               "kind x every signature, all ordered pairs of signatures; + seeded random schemas (<= 6 fields, <= 3 methods, "
               "4 targets): quick 1500, thorough 150000 (or until the budget)",
         tier=tier, seed=seed)
